@@ -128,7 +128,7 @@ type Case struct {
 	Kind      string   `json:"kind"` // "lattice" | "random"
 	Root      []*Node  `json:"root"`
 	Carrier   string   `json:"carrier"`
-	PathKind  int      `json:"path_kind,omitempty"` // 0 absolute  1 ~/relative with HOME redirected  2 relative to the working directory
+	PathKind  int      `json:"path_kind,omitempty"` // 0 absolute  1 ~/relative with HOME redirected  2 relative to the working directory  3 the read end of a pipe (/proc/self/fd/N)
 	FileName  int      `json:"file_name,omitempty"` // index into fileNames
 	CfgSyn    int      `json:"cfg_syn,omitempty"`   // syntax of the -config flag, 0..3
 	JSONStyle int      `json:"json_style,omitempty"`
@@ -1122,6 +1122,7 @@ type sources struct {
 func (h *harness) setSources(cs *Case, leaves []leafRef) (out sources, key, observed string) {
 	var envSet []string
 	var files []string
+	var pipes []*os.File
 	setenv := func(k, v string) {
 		os.Setenv(k, v)
 		envSet = append(envSet, k)
@@ -1132,6 +1133,9 @@ func (h *harness) setSources(cs *Case, leaves []leafRef) (out sources, key, obse
 		}
 		for _, f := range files {
 			os.Remove(f)
+		}
+		for _, f := range pipes {
+			f.Close()
 		}
 		if h.homeSet {
 			os.Setenv("HOME", h.homeOrig)
@@ -1184,6 +1188,19 @@ func (h *harness) setSources(cs *Case, leaves []leafRef) (out sources, key, obse
 		case 2:
 			if rel, err := filepath.Rel(h.cwd, abs); err == nil && h.cwd != "" {
 				cfgArg = rel
+			}
+		case 3:
+			// the document does not come from a regular file: -config names the read end of a pipe
+			// (what /dev/stdin, /dev/fd/N or a process substitution give a program): a file whose size
+			// stat reports as 0 and whose content ends when the writer has closed
+			if len(doc) < 60000 && effectiveFail(cs, leaves) == "" {
+				if pr, pw, err := os.Pipe(); err == nil {
+					pw.Write([]byte(doc))
+					pw.Close()
+					pipes = append(pipes, pr)
+					cfgArg = fmt.Sprintf("/proc/self/fd/%d", pr.Fd())
+					h.count("config_read_from_a_pipe", 1)
+				}
 			}
 		}
 		switch cs.CfgSyn {
